@@ -120,7 +120,16 @@ func runC03(w *World) {
 				}
 				if idx == 0 {
 					// administrator: account and roster operations overlap hostile logins
-					switch orng.Intn(6) {
+					switch orng.Intn(8) {
+					case 6, 7:
+						// the account the hostile peers log in with disappears and comes back while they are logging in
+						for k := 0; k < 3; k++ {
+							c.DeleteUser("guest")
+							Delay(orng.Intn(12))
+							c.NewUser("guest", "Guest", "", hostileAcc)
+							Delay(orng.Intn(12))
+						}
+						w.Probe("admin_deletes_and_recreates_hostile_account")
 					case 4, 5:
 						// the administrator kicks a hostile user it sees in the user list - who may have left a moment ago -
 						// or invites it to a private chat
